@@ -3,8 +3,8 @@ from ..core import Script, Rng
 from ..stage import LineStage, replay_line
 from .common import *
 
-ARTEFACTS = ["G1-consts", "G2-rs-portable", "G9-update"]
-EXTRA_PROPS = [("B3.Props.C01T", "B3/Props/C01T.lean")]   # theorems about the code translated from the sources
+ARTEFACTS = ["G1-consts", "G2-rs-portable", "G9-update", "G25-oneshot", "G24-portable-many"]
+EXTRA_PROPS = [("B3.Props.C01T", "B3/Props/C01T.lean"), ("B3.Props.C01O", "B3/Props/C01O.lean"), ("B3.Props.CapT", "B3/Props/CapT.lean")]   # theorems about the code translated from the sources
 RULE = ("one op per case: `O hash <mode> pat <len> <seed>` at a forced platform; lengths: every length 0..N exhaustively, "
         "the +-1 lattice around multiples of 64/1024/2^k chunks/4-8-16*j chunks; modes hash/keyed(random key)/derive(contexts "
         "incl. empty, non-ASCII, >1 chunk); non-trivial = input longer than one block; distinct = distinct op line")
